@@ -64,6 +64,9 @@ func c05RealBinary(r *ev.Result, base string) {
 		{"-listen-address", "127.0.0.1", "-callback-address", "cb.example", "-callback-address", "other.example:8443"},
 		{"-listen-address", "[::1]:0", "-serve-files-from", files, "-callback-address", "2001:db8::1"},
 		{"-listen-address", "127.0.0.1:0", "-serve-files-from", files, "-no-timestamps"},
+		/* The callback address given before the listen address (flags are
+		applied left to right), without a port of its own. */
+		{"-callback-address", "first.example", "-listen-address", "127.0.0.1:0"},
 	}
 	n := 0
 	for si, set := range sets {
@@ -90,7 +93,7 @@ func c05RealBinary(r *ev.Result, base string) {
 			}
 			wire, _ := c.LeafPin()
 			c.Close()
-			out := ansiRE.ReplaceAllString(p.Output(), "")
+			out := strings.ReplaceAll(ansiRE.ReplaceAllString(p.Output(), ""), "\r", "")
 			pins := c05PinRE.FindAllStringSubmatch(out, -1)
 			if 0 == len(pins) {
 				v("no-pin-on-terminal", fmt.Sprintf("args %v: no fingerprint on the terminal: %q", args, trunc300(out)), rp)
@@ -101,7 +104,11 @@ func c05RealBinary(r *ev.Result, base string) {
 				}
 			}
 			_, port, _ := strings.Cut(addr[strings.LastIndex(addr, ":"):], ":")
-			for _, m := range c05OneLiner.FindAllStringSubmatch(out, -1) {
+			liners := c05OneLiner.FindAllStringSubmatch(out, -1)
+			if 0 == len(liners) {
+				v("no-one-liner-on-terminal", fmt.Sprintf("args %v: no one-liner found on the terminal: %q", args, trunc300(out)), rp)
+			}
+			for _, m := range liners {
 				a := m[2]
 				if "other.example:8443" == a {
 					continue
